@@ -176,10 +176,14 @@ func reifyInto(opts *options, to reflect.Value, from *Config) Error {
 	k := tTo.Kind()
 
 	switch k {
-	case reflect.Map:
-		return reifyMap(opts, to, from, nil)
 	case reflect.Struct:
 		return reifyStruct(opts, to, from)
+	case reflect.Map:
+		if to.Kind() != reflect.Ptr {
+			return reifyMap(opts, to, from, nil)
+		}
+		// a nil pointer to a map: the map is built like a nested one
+		fallthrough
 	case reflect.Slice, reflect.Array:
 		fopts := fieldOptions{opts: opts, tag: tagOptions{}, validators: nil}
 		v, err := reifyMergeValue(fopts, to, cfgSub{from})
